@@ -24,6 +24,10 @@ struct Case {
     prelude: Option<Model>,
     #[serde(default)]
     flags: Vec<String>,
+    /// things other programs left in the output directory: (name, kind) with kind
+    /// "file" | "dir" | "dangling_symlink"
+    #[serde(default)]
+    foreign: Vec<(String, String)>,
     cfg: Cfg,
     setup: Setup,
     /// idem: run 0 generates, the rest repeat. force: run 0 prepares, run 1 is judged
@@ -137,6 +141,21 @@ impl Check for C14 {
         } else {
             None
         };
+        let mut fr = r.split("foreign");
+        let mut foreign: Vec<(String, String)> = vec![];
+        if i % 5 == 2 {
+            for _ in 0..fr.range(1, 3) {
+                let (n, k) = match fr.below(4) {
+                    0 => (format!(".#{}", fr.pick(&["types.ts", "commands.ts", "index.ts"])), "dangling_symlink"), // an editor's lock link
+                    1 => (format!("{}.md", fr.pick(crate::model::WORDS)), "file"),
+                    2 => (format!("{}-assets", fr.pick(crate::model::WORDS)), "dir"),
+                    _ => (crate::checks::c16::gen_near_miss(&mut fr), "file"),
+                };
+                if !crate::checks::c16::is_reserved(&n) && !foreign.iter().any(|f| f.0 == n) {
+                    foreign.push((n, k.to_string()));
+                }
+            }
+        }
         let mut cr = r.split("cfg");
         let cfg = gen_cfg(&mut cr, &setup);
         let force_kind = i % 3 == 2;
@@ -165,6 +184,7 @@ impl Check for C14 {
             model,
             prelude,
             flags,
+            foreign,
             cfg,
             setup,
             procs,
@@ -201,6 +221,25 @@ impl Check for C14 {
             }
             None => scen::materialise(env, &c.model, &c.cfg, &c.setup),
         };
+        if !c.foreign.is_empty() {
+            let out = w.out_dir(&c.setup);
+            let _ = std::fs::create_dir_all(&out);
+            for (n, k) in &c.foreign {
+                let p = out.join(n);
+                match k.as_str() {
+                    "dir" => {
+                        let _ = std::fs::create_dir_all(&p);
+                    }
+                    "dangling_symlink" => {
+                        let _ = std::os::unix::fs::symlink("someone@host.4242", &p);
+                    }
+                    _ => {
+                        let _ = std::fs::write(&p, format!("foreign {}\n", n));
+                    }
+                }
+            }
+            co.count("worlds_with_foreign_entries_in_the_output_directory", 1);
+        }
         let n_files = c.model.files.len();
         let n_cmd_files = c
             .model
@@ -457,6 +496,11 @@ impl Check for C14 {
         if c.prelude.is_some() {
             let mut d = c.clone();
             d.prelude = None;
+            out.push(d);
+        }
+        for k in 0..c.foreign.len() {
+            let mut d = c.clone();
+            d.foreign.remove(k);
             out.push(d);
         }
         if c.prelude.is_none() {
